@@ -58,5 +58,9 @@ def run(ctx):
                (ds[0].lhs.w or 0) >= 14 and (ds[0].rhs.w or 0) >= 14, ds[0].loc,
                'bus_interval path widths: %s <- %s bits, need 14' % (ds[0].lhs.w, ds[0].rhs.w))
     sub = [s for s in pl.submodules if s.name == 'itp_handler']
+    ins = [getattr(x, 'self_val', x) for x in (getattr(sub[0].obj, 'inserters', None) or [])] if sub else []
+    ctx.ob('C47.layer-forward', 'USB3ProtocolLayer.itp_handler.always-clocked', not ins, sub[0].loc if sub else None,
+           'the ITP handler accepts a packet combinationally (header_sink.ready) and captures it in registers: wrapped in a '
+           'Reset/EnableInserter (%s) a packet accepted while that control is asserted is consumed without being captured' % (ins,))
     ctx.ob('C47.layer-forward', 'USB3ProtocolLayer.itp_handler', bool(sub) and sub[0].obj.clsname == 'TimestampPacketReceiver',
            sub[0].loc if sub else None, 'the ITP handler is a TimestampPacketReceiver')
